@@ -321,6 +321,28 @@ class SymNP:
             return False
         return explore.SymBool(f)
 
+    def mod(self, x, m):
+        def one(a):
+            if type(a).__name__ == 'ZNum':
+                import z3
+                from .zprox import ZNum
+                if m != 1:
+                    raise UnsupportedInShim('mod by %r' % (m,))
+                t = a.t if a.t.is_real() else z3.ToReal(a.t)
+                return ZNum(t - z3.ToReal(z3.ToInt(t)))
+            return np.mod(a, m)
+        return _map(one, x)
+
+    def round(self, x, *a):
+        def one(v):
+            if type(v).__name__ == 'ZNum':
+                import z3
+                from .zprox import ZNum
+                t = v.t if v.t.is_real() else z3.ToReal(v.t)
+                return ZNum(z3.ToReal(z3.ToInt(t + z3.RealVal('1/2'))))      # ties are measure-zero for the positions considered
+            return np.round(v, *a)
+        return _map(one, x)
+
     def clip(self, x, lo, hi):
         raise UnsupportedInShim('clip on symbolic values')
 
